@@ -342,6 +342,7 @@ type c18target struct {
 	F    []byte // nil: no new contents exist (the parser rejects T)
 	mode os.FileMode
 	how  string
+	link string // non-empty: name is a symbolic link to this file (same directory), which holds the contents
 }
 
 type c18scn struct {
@@ -362,6 +363,13 @@ func (s *c18scn) reset() {
 	for _, t := range s.targets {
 		p := filepath.Join(s.dir, t.name)
 		os.Remove(p)
+		if t.link != "" {
+			// the journal is reached through a symbolic link: the contents live in t.link
+			os.Remove(filepath.Join(s.dir, t.link))
+			if err := os.Symlink(t.link, p); err != nil {
+				panic(err)
+			}
+		}
 		if err := os.WriteFile(p, t.T, 0o644); err != nil {
 			panic(err)
 		}
@@ -456,6 +464,9 @@ func (s *c18scn) run(f c18fault) core.Result {
 func (s *c18scn) shell(f c18fault) string {
 	var b strings.Builder
 	for _, t := range s.targets {
+		if t.link != "" {
+			fmt.Fprintf(&b, "mv %s %s; ln -s %s %s; ", shQuote(t.name), shQuote(t.link), shQuote(t.link), shQuote(t.name))
+		}
 		fmt.Fprintf(&b, "cp %s %s.orig; ", shQuote(t.name), shQuote(t.name))
 	}
 	argv := append([]string{"knut"}, s.args...)
@@ -623,6 +634,46 @@ func (s *c18scn) fsizeRun(kk int) bool {
 					"exit": res.Exit, "stderr": core.Trunc(string(res.Stderr), 300), "file_after": "state " + states[0].class + " (previous contents)", "leftover_temp_files": left}
 			})
 		}
+	}
+	return true
+}
+
+// symlinkPass repeats a few size-limit faults with every target reached through
+// a symbolic link: whatever the command does with the link, the contents read
+// through the path (and the link's target file) must be the complete previous or
+// the complete new contents.
+func (s *c18scn) symlinkPass(r *rand.Rand) bool {
+	if !s.k.on("fsize") {
+		return true
+	}
+	for _, t := range s.targets {
+		t.link = t.name + ".real"
+		s.known[t.link] = true
+	}
+	defer func() {
+		for _, t := range s.targets {
+			os.Remove(filepath.Join(s.dir, t.name))
+			os.Remove(filepath.Join(s.dir, t.link))
+			t.link = ""
+		}
+	}()
+	oldPrefix := s.prefix
+	s.prefix += "symlink-"
+	defer func() { s.prefix = oldPrefix }()
+	lf := 0
+	for _, t := range s.targets {
+		lf = max(lf, len(t.F), len(t.T))
+	}
+	ks := []int{0, 1, 1 + r.Intn(max(1, lf-1)), 1 + r.Intn(max(1, lf-1)), lf - 1, lf + 4096}
+	for _, kk := range ks {
+		if kk < 0 {
+			continue
+		}
+		if !s.fsizeRun(kk) {
+			return false
+		}
+		// the link's target file, if it is still there, is subject to the same rule
+		s.c.Count("crash_points_symlink", 1)
 	}
 	return true
 }
@@ -1291,7 +1342,10 @@ func (k *c18) runFormat(c *core.Ctx, i int, cs c18case) {
 	if !s.permRuns() {
 		return
 	}
-	s.killRuns()
+	if !s.killRuns() {
+		return
+	}
+	s.symlinkPass(c.Rng(i, "symlink"))
 }
 
 func (k *c18) runBad(c *core.Ctx, i int, cs c18case) {
@@ -1650,7 +1704,10 @@ func (k *c18) runInfer(c *core.Ctx, i int, cs c18case) {
 	if !s.permRuns() {
 		return
 	}
-	s.killRuns()
+	if !s.killRuns() {
+		return
+	}
+	s.symlinkPass(c.Rng(i, "symlink"))
 }
 
 // runInferPre: infer --inplace fails before writing (rejected target,
